@@ -5,6 +5,32 @@ import common
 from common import Check, main_wrapper
 
 
+def hw_limit_probe(over):
+    common.setup_repo_path()
+    from ethosu.vela import api
+    from ethosu.vela.errors import VelaError
+
+    def make_ops(n):
+        return [api.NpuDmaOperation(api.NpuAddressRange(i % 2, (i * 32) % (1 << 20), 16 + 16 * (i % 7)),
+                                    api.NpuAddressRange(2 + (i % 3) % 2, (1 << 20) + (i * 48) % (1 << 20), 16 + 16 * (i % 7)))
+                for i in range(n)]
+    acc = api.NpuAccelerator.Ethos_U55_128
+    per_op = len(api.npu_generate_register_command_stream(make_ops(2000), acc)) / 2000
+    target = (1 << 22) + 4096 if over else (1 << 22) - 8192
+    n = int(target / per_op) + (1 if over else 0)
+    try:
+        words = api.npu_generate_register_command_stream(make_ops(n), acc)
+    except VelaError as e:
+        return ("rejected", n, 0, str(e)[:120])
+    out = ["generated", n, len(words), ""]
+    try:
+        b = api.npu_create_driver_payload(words, acc)
+        out[3] = "framed %d bytes" % len(b)
+    except VelaError as e:
+        out[0], out[3] = "rejected-framing", str(e)[:120]
+    return tuple(out)
+
+
 def main():
     ck = Check("C17", "proof")
     lean = ck.lean_stage(["VelaVerif.Props.C17"])
@@ -22,27 +48,6 @@ def main():
     # child next to the rest of the check. Thorough: also a stream just below the limit, which must be accepted.
     from concurrent.futures import ProcessPoolExecutor
     import multiprocessing
-
-    def hw_limit_probe(over):
-        def make_ops(n):
-            return [api.NpuDmaOperation(api.NpuAddressRange(i % 2, (i * 32) % (1 << 20), 16 + 16 * (i % 7)),
-                                        api.NpuAddressRange(2 + (i % 3) % 2, (1 << 20) + (i * 48) % (1 << 20), 16 + 16 * (i % 7)))
-                    for i in range(n)]
-        acc = api.NpuAccelerator.Ethos_U55_128
-        per_op = len(api.npu_generate_register_command_stream(make_ops(2000), acc)) / 2000
-        target = (1 << 22) + 4096 if over else (1 << 22) - 8192
-        n = int(target / per_op) + (1 if over else 0)
-        try:
-            words = api.npu_generate_register_command_stream(make_ops(n), acc)
-        except VelaError as e:
-            return ("rejected", n, 0, str(e)[:120])
-        out = ["generated", n, len(words), ""]
-        try:
-            b = api.npu_create_driver_payload(words, acc)
-            out[3] = "framed %d bytes" % len(b)
-        except VelaError as e:
-            out[0], out[3] = "rejected-framing", str(e)[:120]
-        return tuple(out)
 
     pool = ProcessPoolExecutor(2, mp_context=multiprocessing.get_context("fork"))
     hw_futs = [(True, pool.submit(hw_limit_probe, True))] + ([(False, pool.submit(hw_limit_probe, False))] if ck.thorough else [])
